@@ -247,7 +247,7 @@ class Repo:
                             if s2.value is not None:
                                 c.attrs[s2.target.id] = s2.value
                     visit(st.body, c, None, prefix + st.name + ".")
-                elif isinstance(st, (ast.If, ast.Try, ast.With)):
+                elif isinstance(st, (ast.If, ast.Try, ast.With, ast.For, ast.While, ast.AsyncFor, ast.AsyncWith)):
                     for fld in ("body", "orelse", "finalbody"):
                         visit(getattr(st, fld, []) or [], cls, pf, prefix)
                     for h in getattr(st, "handlers", []) or []:
